@@ -104,3 +104,13 @@ func H_C18_names() {
 	vAssert(indexMainName == "main.pix" && indexOverflowName == "overflow.pix" && indexMetaName == "index.pmt" && dbMetaName == "db.pmt" && lockName == "lock", "C18.names.files")
 	vCover("C18.names.done")
 }
+
+// H_C18_meta: the gob side files are matched by exported field name and type;
+// pinned to the format version 2 layout (see docs/design.md and the pinned source).
+func H_C18_meta() {
+	vAssert(vGobFields(&dbMeta{}) == "HashSeed uint32;", "C18.meta.db-fields")
+	vAssert(vGobFields(&indexMeta{}) == "Level uint8;NumKeys uint32;NumBuckets uint32;SplitBucketIndex uint32;FreeOverflowBuckets []int64;", "C18.meta.index-fields")
+	vAssert(vGobFields(&segmentMeta{}) == "Full bool;PutRecords uint32;DeleteRecords uint32;DeletedKeys uint32;DeletedBytes uint32;", "C18.meta.segment-fields")
+	vAssert(formatVersion == 2 && headerSize == 512 && bucketSize == 512 && segmentExt == ".psg" && metaExt == ".pmt" && indexExt == ".pix", "C18.meta.constants")
+	vCover("C18.meta.done")
+}
